@@ -23,7 +23,7 @@ struct RunOut {
 }
 
 fn run_one<const M: usize>(hseed: u64, nops: usize, fallible: bool, refuse: Refuse, rep: &mut Report, profile: &Profile, ctx: &str) -> RunOut {
-    let env = Env { skew: 3, junk: true, scribble: true, quarantine: true, cap: 64 << 20 };
+    let env = Env { skew: 3, junk: !cfg!(miri), scribble: !cfg!(miri), quarantine: !cfg!(miri), cap: 64 << 20 };
     env.apply(hseed);
     halloc::set_prob_seed(hseed);
     crate::ledger::reset();
